@@ -34,8 +34,8 @@ var c23ids = []uint32{
 }
 
 // VerifC23_handle: Conn.handleMessage on an arbitrary payload: a constructor id (each of the 11
-// the connection handles itself, or any other id) followed by 12 (quick) / 20 (thorough) arbitrary bytes; two requests
-// with arbitrary ids are pending in a real rpc.Engine.
+// the connection handles itself, or any other id) followed by 12 (quick) / 20 (thorough) arbitrary bytes; one (quick) or two
+// (thorough) requests with arbitrary ids are pending in a real rpc.Engine.
 // Claims: no panic; a pending request is completed (result decoded into its output, or an error
 // delivered) only by a payload that names its message id — for a top-level rpc_result the
 // req_msg_id, for bad_msg_notification / bad_server_salt the bad_msg_id; payloads of the other
@@ -57,7 +57,11 @@ func VerifC23_handle() {
 		ids[0] = verifrt.NondetInt64("id0")
 		ids[1] = verifrt.NondetInt64("id1")
 		verifrt.Assume(ids[0] != ids[1])
-		for k := 0; k < 2; k++ {
+		pending := 1
+		if verifrt.Tier() == 1 {
+			pending = 2
+		}
+		for k := 0; k < pending; k++ {
 			k := k
 			outs[k] = &c23out{}
 			go func() {
@@ -103,7 +107,7 @@ func VerifC23_handle() {
 			}
 			return int64(v)
 		}
-		for k := 0; k < 2; k++ {
+		for k := 0; k < pending; k++ {
 			completed := done[k] || outs[k].decodes > 0
 			switch {
 			case kind == 5: // rpc_result: req_msg_id is the first field
